@@ -100,6 +100,15 @@ func c03Arm(p *Program) {
 				rec.Ev("panic(%s)", id)
 				panic("prologue panic in " + id)
 			}
+			if isMain && c.Req.Header.Get("X-Redispatch") == id {
+				// prologue: an internal redirect, the router dispatches this request once more
+				to := c.Req.Header.Get("X-Redispatch-To")
+				c.Req.Header.Del("X-Redispatch")
+				c.Req.URL.Path = to
+				rec.Ev("redispatch(%s -> %s)", id, to)
+				c.Router().HandleContext(c)
+				return
+			}
 			rec.Ev("params(%s){%s}", id, fmtParams(copyParams(c.Params)))
 			if bg, ok := rec.Extra["bg"].(*sync.WaitGroup); ok && isMain {
 				// stress mode: "background work" keeps a Copy() of the context beyond the request
@@ -179,6 +188,26 @@ func c03Program(r *rand.Rand) *Program {
 // recovered by the hook) before the concurrent phase starts. The statement is
 // about requests served "once registration is finished" whatever happened before.
 func c03Prologue(t *T, p *Program, router *rux.Router, reqs []c09Req) bool {
+	// internal redirects (a main handler re-dispatches its request through HandleContext)
+	if t.Idx%2 == 0 {
+		for i := 0; i < 2; i++ {
+			q := reqs[(int(t.Idx)/2+i)%len(reqs)]
+			if q.Kind != "route" || len(q.Chain) == 0 || !q.Chain[len(q.Chain)-1].Main {
+				continue
+			}
+			// the same path again: the second dispatch runs a chain of the same length (what a
+			// re-dispatch into a shorter chain does to the outer Next() loop is outside C03)
+			to := q.Path
+			req := NewReq(q.Method, q.Path)
+			req.Header.Set("X-Redispatch", q.Chain[len(q.Chain)-1].ID)
+			req.Header.Set("X-Redispatch-To", to)
+			if _, _, escaped := Serve(router, req); escaped {
+				t.Count("prologue.redispatch_panicked", 1) // not a statement of C03; the concurrent phase still follows
+				continue
+			}
+			t.Count("prologue.redispatches", 1)
+		}
+	}
 	if !p.PanicHook {
 		return true
 	}
